@@ -7,6 +7,10 @@ use crate::universe::*;
 use dlt_core::parse::{dlt_consume_msg, dlt_message, DltParseError};
 use serde_json::json;
 
+thread_local! {
+    static FILTERS: std::rc::Rc<Vec<(&'static str, dlt_core::filtering::ProcessedDltFilterConfig)>> = std::rc::Rc::new(crate::p04_consume::filter_configs().into_iter().filter_map(|(n, f)| f.map(|f| (n, f))).filter(|(n, _)| n.starts_with("filter that drops") || n.starts_with("ECU ids {NOPE}")).collect());
+}
+
 fn judge_message(m: &RefMsg, loc: &mut Local) {
     let with_storage = m.storage.is_some();
     let bytes = encode(m).0;
@@ -42,6 +46,23 @@ fn judge_message(m: &RefMsg, loc: &mut Local) {
             Ok(Ok((rest, pm))) => {
                 loc.outcome("message from a prefix");
                 loc.violation("prefix parses as a message", format!("cut at {} of {} parses successfully ({} left, {}); message {}", cut, len, rest, pm, hex_short(&bytes)), details(cut));
+            }
+        }
+        // the same prefix under filters: a filter may only replace a COMPLETE message by a marker
+        for (fname, f) in FILTERS.with(|f| f.clone()).iter() {
+            loc.transitions += 1;
+            match catch(|| dlt_message(prefix, Some(f), with_storage).map(|(rest, pm)| (rest.len(), format!("{:?}", pm).chars().take(80).collect::<String>()))) {
+                Ok(Err(DltParseError::IncompleteParse { needed })) => {
+                    if let Some(k) = needed {
+                        if k.get() > len - cut {
+                            loc.violation("incomplete hint exceeds the missing bytes (with filter)", format!("cut at {} of {} with [{}]: hint {} > missing {}", cut, len, fname, k, len - cut), details(cut));
+                        }
+                    }
+                }
+                other => {
+                    loc.outcome("prefix not incomplete under a filter");
+                    loc.violation("prefix is not reported incomplete when a filter is given", format!("cut at {} of {} with [{}] gives {:?} instead of 'incomplete'; message {}", cut, len, fname, other, hex_short(&bytes)), details(cut));
+                }
             }
         }
         if with_storage {
